@@ -67,6 +67,14 @@ def make_case(unit):
     if g.chance(0.4):
         cases.attach_insertions(g, facets, transforms, hide_some=False)
     spec = sim.CubeSpec(facets, g.weights(N, wmode), ())
+    if g.chance(0.45):
+        # display transforms: a row whose members all miss the column variable is *pruned*,
+        # yet it still belongs to the unconditional baseline of the rows that stay
+        from .c05 import add_display_transforms
+
+        add_display_transforms(g, spec, transforms, kinds=["none", "explicit", "label"])
+        if g.chance(0.6):
+            transforms.setdefault("rows_dimension", {})["prune"] = True
     return {"template": template, "spec": sim.spec_to_dict(spec), "transforms": transforms}
 
 
@@ -77,7 +85,8 @@ def _uneven_missing(g, rrole, rv, crole, cv):
         members = rv.ans == k
     else:
         members = rv.state[:, g.r.randrange(rv.state.shape[1])] == sim.SEL
-    hit = np.array([g.r.random() < 0.7 for _ in range(N)]) & members
+    p_hit = g.pick([0.7, 0.7, 1.0])  # 1.0: the whole row element misses the column variable
+    hit = np.array([g.r.random() < p_hit for _ in range(N)]) & members
     if crole == "cat":
         miss = [j for j, c in enumerate(cv.cats) if c.get("missing")]
         if miss:
